@@ -41,9 +41,7 @@ theorem step1_depth (s s' : St1) (e : Ev) (h : step1 s e = .ok s') :
         simp only [hsa, hsd, List.head?_cons] at h
         split at h
         · cases h; simp [depth1, Ev.isCls, Ev.isOpn, hsa, hsd] <;> omega
-        · split at h
-          · cases h; simp [depth1, Ev.isCls, Ev.isOpn, hsa, hsd] <;> omega
-          · cases h
+        · cases h; simp [depth1, Ev.isCls, Ev.isOpn, hsa, hsd] <;> omega
 
 /-! ### Raw tokens as hints -/
 
@@ -205,13 +203,7 @@ theorem collectToks_ok_not_malformed (toks : List (Nat × Str)) (r : Sched × Sc
         rw [depth_nil] at this; omega
       · omega
 
-/-! ### Where a `TypeError` can come from -/
-
-/-- Every entry of a stack was pushed by an opening mark of its label, of the buffer's sign, on
-the line it records. -/
-def Prov (del : Bool) (stk : List (Str × Nat)) (pre : List (Nat × Str)) : Prop :=
-  ∀ e ∈ stk, ∃ p ∈ pre, ∃ k, classify p.2 = some k ∧ p.1 = e.2 ∧ k.label = e.1 ∧ k.after = true ∧
-    k.before ≠ .dots ∧ (k.before = .minus ↔ del = true)
+/-! ### The only exception of `collect_hints` is `ValueError` -/
 
 theorem pop_subset (L : Str) (stk : List (Str × Nat)) : ∀ e ∈ pop L stk, e ∈ stk := by
   induction stk with
@@ -236,117 +228,22 @@ theorem top_mem (L : Str) (stk : List (Str × Nat)) (x : Nat) (h : top L stk = s
     · rename_i hl; cases h; subst hl; simp
     · exact List.mem_cons_of_mem _ (ih h)
 
-theorem Prov.mono {del : Bool} {stk : List (Str × Nat)} {pre : List (Nat × Str)} (h : Prov del stk pre)
-    (q : Nat × Str) : Prov del stk (pre ++ [q]) := by
-  intro e he
-  obtain ⟨p, hp, k, hk⟩ := h e he
-  exact ⟨p, by simp [hp], k, hk⟩
-
-theorem Prov.sub {del : Bool} {stk stk' : List (Str × Nat)} {pre : List (Nat × Str)} (h : Prov del stk pre)
-    (hs : ∀ e ∈ stk', e ∈ stk) : Prov del stk' pre :=
-  fun e he => h e (hs e he)
-
-/-- One accepted step keeps the provenance of both stacks. -/
-theorem stepTok_prov (i : Nat) (st st' : Bufs) (t : Str) (pre : List (Nat × Str))
-    (h : stepTok i st t = .ok st') (ha : Prov false st.add.stack pre) (hd : Prov true st.del.stack pre) :
-    Prov false st'.add.stack (pre ++ [(i, t)]) ∧ Prov true st'.del.stack (pre ++ [(i, t)]) := by
-  rw [stepTok_classify] at h
-  cases hk : classify t with
-  | none => simp [hk] at h
-  | some k =>
-    simp only [hk] at h
-    obtain ⟨b, L, a⟩ := k
-    have ha' := ha.mono (i, t)
-    have hd' := hd.mono (i, t)
-    have hnew : ∀ del : Bool, b ≠ .dots → a = true → (b = .minus ↔ del = true) →
-        ∀ stk, Prov del stk (pre ++ [(i, t)]) → Prov del ((L, i) :: stk) (pre ++ [(i, t)]) := by
-      intro del hb hat hsign stk hstk e he
-      rcases List.mem_cons.mp he with rfl | he
-      · exact ⟨(i, t), by simp, ⟨b, L, a⟩, hk, rfl, rfl, hat, hb, hsign⟩
-      · exact hstk e he
-    cases b <;> cases a <;> simp only [stepEv] at h
-    · cases h; exact ⟨ha', hd'⟩
-    · cases h; exact ⟨hnew false (by simp) rfl (by simp) _ ha', hd'⟩
-    · cases h; exact ⟨ha', hd'⟩
-    · cases h; exact ⟨hnew false (by simp) rfl (by simp) _ ha', hd'⟩
-    · cases h; exact ⟨ha', hd'⟩
-    · cases h; exact ⟨ha', hnew true (by simp) rfl (by simp) _ hd'⟩
-    · split at h
-      · cases h
-      · cases h; exact ⟨ha'.sub (pop_subset L _), hd'⟩
-      · cases h; exact ⟨ha', hd'.sub (pop_subset L _)⟩
-      · split at h
-        · cases h; exact ⟨ha'.sub (pop_subset L _), hd'⟩
-        · split at h
-          · cases h; exact ⟨ha', hd'.sub (pop_subset L _)⟩
-          · cases h
-    · cases h
-
-/-- A `TypeError` needs the same label on the same line on top of both stacks. -/
-theorem stepTok_typeError (i : Nat) (st : Bufs) (t : Str) (h : stepTok i st t = .error .typeError) :
-    ∃ L x, (L, x) ∈ st.add.stack ∧ (L, x) ∈ st.del.stack := by
-  rw [stepTok_classify] at h
-  cases hk : classify t with
-  | none => simp [hk] at h
-  | some k =>
-    simp only [hk] at h
-    obtain ⟨b, L, a⟩ := k
-    cases b <;> cases a <;> simp only [stepEv] at h <;> try (cases h)
-    split at h <;> try (cases h)
-    rename_i x y hx hy
-    split at h
-    · cases h
-    · split at h
-      · cases h
-      · have : x = y := by omega
-        subst this
-        exact ⟨L, x, top_mem L _ x hx, top_mem L _ x hy⟩
-
 theorem stepTok_error_class (i : Nat) (st : Bufs) (t : Str) (e : Err) (h : stepTok i st t = .error e) :
-    e = .valueError ∨ e = .typeError := by
+    e = .valueError := by
   rw [stepTok_classify] at h
   cases hk : classify t with
-  | none => simp [hk] at h; exact Or.inl h.symm
+  | none => simp [hk] at h; exact h.symm
   | some k =>
     simp only [hk] at h
     obtain ⟨b, L, a⟩ := k
     cases b <;> cases a <;> simp only [stepEv] at h <;> try (cases h)
     · split at h <;> try (cases h)
-      · exact Or.inl rfl
-      · split at h
-        · cases h
-        · split at h
-          · cases h
-          · cases h; exact Or.inr rfl
-    · exact Or.inl rfl
-
-/-- Without a label opened with both signs on one line, no `TypeError`. -/
-theorem runToks_no_typeError (toks : List (Nat × Str)) :
-    ∀ st pre, Prov false st.add.stack pre → Prov true st.del.stack pre → TieFree (pre ++ toks) →
-      runToks st toks ≠ .error .typeError := by
-  induction toks with
-  | nil => intro st pre _ _ _ h; simp [runToks] at h
-  | cons p rest ih =>
-    obtain ⟨i, t⟩ := p
-    intro st pre ha hd htf h
-    simp only [runToks] at h
-    split at h
-    · rename_i st1 hst1
-      obtain ⟨ha1, hd1⟩ := stepTok_prov i st st1 t pre hst1 ha hd
-      exact ih st1 (pre ++ [(i, t)]) ha1 hd1 (by simpa using htf) h
-    · rename_i e he
-      cases h
-      obtain ⟨L, x, hxa, hxd⟩ := stepTok_typeError i st t he
-      obtain ⟨p, hp, kp, hkp, hpl, hplab, hpa, hpb, hps⟩ := ha (L, x) hxa
-      obtain ⟨q, hq, kq, hkq, hql, hqlab, hqa, hqb, hqs⟩ := hd (L, x) hxd
-      have := htf p (by simp [hp]) q (by simp [hq]) kp kq hkp hkq (by rw [hpl, hql]) (by rw [hplab, hqlab])
-        hpa hqa hpb hqb
-      have h1 : ¬ kp.before = .minus := fun e => by simpa using hps.mp e
-      have h2 : kq.before = .minus := hqs.mpr rfl
-      exact h1 (this.mpr h2)
+      · rfl
+      · split at h <;> cases h
+    · rfl
 
 theorem runToks_error_class (toks : List (Nat × Str)) :
-    ∀ st e, runToks st toks = .error e → e = .valueError ∨ e = .typeError := by
+    ∀ st e, runToks st toks = .error e → e = .valueError := by
   induction toks with
   | nil => intro st e h; simp [runToks] at h
   | cons p rest ih =>
@@ -357,19 +254,14 @@ theorem runToks_error_class (toks : List (Nat × Str)) :
     · exact ih _ e h
     · rename_i e' he; cases h; exact stepTok_error_class i st t _ he
 
-/-- `collect_hints` never raises anything else than `ValueError` when no label is opened with both
-signs on one line. -/
-theorem collectToks_error_value (toks : List (Nat × Str)) (htf : TieFree toks) (e : Err)
+/-- `collect_hints` never raises anything else than `ValueError`. -/
+theorem collectToks_error_value (toks : List (Nat × Str)) (e : Err)
     (h : collectToks toks = .error e) : e = .valueError := by
   unfold collectToks at h
   cases hrun : runToks {} toks with
   | error e' =>
     simp only [hrun] at h; cases h
-    rcases runToks_error_class toks {} e hrun with h1 | h1
-    · exact h1
-    · subst h1
-      exact absurd hrun (runToks_no_typeError toks {} [] (by intro e he; simp at he) (by intro e he; simp at he)
-        (by simpa using htf))
+    exact runToks_error_class toks {} e hrun
   | ok st =>
     simp only [hrun] at h
     unfold finish at h
@@ -391,17 +283,5 @@ theorem malformed_of_B (toks : List (Nat × Str)) (h : malformedB toks = true) :
     · exact Or.inl ⟨toks.take n, List.take_prefix n toks, hn⟩
     · exact Or.inr hne
 
-theorem tieFree_of_B (toks : List (Nat × Str)) (h : tieFreeB toks = true) : TieFree toks := by
-  intro p hp q hq kp kq hkp hkq hline hlab hpa hqa hpb hqb
-  simp only [tieFreeB, List.all_eq_true] at h
-  have := h p hp q hq
-  simp only [hkp, hkq, hline, hlab, hpa, hqa, beq_self_eq_true, Bool.and_true, Bool.true_and,
-    Bool.or_eq_true, Bool.not_eq_true', Bool.and_eq_false_iff, bne_eq_false_iff_eq, beq_iff_eq] at this
-  rcases this with (h1 | h1) | h1
-  · exact absurd h1 hpb
-  · exact absurd h1 hqb
-  · constructor
-    · intro e; simpa [e] using h1
-    · intro e; simpa [e] using h1
 
 end Paroxy.Hints
